@@ -123,6 +123,57 @@ def judge(ctx, case, truth, res, model):
             return
 
 
+def multi_base_matrix():
+    """Enumerated: two bases x {provides with a precondition, provides without, does not provide} each, in both
+    orders, x the sub-class {overrides without / with own preconditions, does not override} x member kind x sync/async,
+    each with a postcondition at every level. All truth assignments are explored by the caller."""
+    from vf.progmodel import gen as G
+
+    kinds = [("method", False), ("method", True), ("static", False), ("class", False), ("getter", False),
+             ("setter", False), ("deleter", False)]
+    for kind, is_async in kinds:
+        for b1 in ("pre", "nopre", "absent"):
+            for b2 in ("pre", "nopre", "absent"):
+                for child in ("override", "override+pre", "inherit"):
+                    ids = G.Ids()
+                    name = "p" if kind in ("getter", "setter", "deleter") else "m"
+
+                    def members(mode, post=True):
+                        if mode == "absent":
+                            return []
+                        params, defaults = G.params_of(kind)
+                        decos = []
+                        if post:
+                            decos.append({"t": "ensure", "cid": ids.cid(), "args": [], "lam": False, "err": {"form": "default"}})
+                        if mode in ("pre", "override+pre"):
+                            decos.append({"t": "require", "cid": ids.cid(), "args": [], "lam": False, "err": {"form": "default"}})
+                        f = {"name": name, "kind": kind, "async": is_async, "params": params, "defaults": defaults,
+                             "decos": decos, "body": {"ret": "obj"}}
+                        out = [f]
+                        if kind in ("setter", "deleter"):
+                            out = [{"name": name, "kind": "getter", "async": False, "params": [], "defaults": {}, "decos": [],
+                                    "body": {"ret": "obj"}}, f]
+                        return out
+
+                    classes = [
+                        {"name": "K0", "bases": [], "root": "DBC", "shape": "plain", "invs": [], "members": members(b1)},
+                        {"name": "K1", "bases": [], "root": "DBC", "shape": "plain", "invs": [], "members": members(b2)},
+                        {"name": "K2", "bases": [0, 1], "root": "DBC", "shape": "plain", "invs": [],
+                         "members": members({"override": "nopre", "override+pre": "pre", "inherit": "absent"}[child])},
+                    ]
+                    prog = {"funcs": [], "classes": classes}
+                    ops = []
+                    for ci, c in enumerate(classes):
+                        ops.append({"op": "new", "cls": ci, "k": ci, "args": {}})
+                        provided = c["members"] or (ci == 2 and (classes[0]["members"] or classes[1]["members"]))
+                        if provided:
+                            args = {"value": "a:v"} if kind == "setter" else ({} if kind in ("getter", "deleter") else {"x": "a:x"})
+                            ops.append(G.op_for_member(kind, ci, name, args))
+                    cids = D.all_cids(prog)
+                    yield {"program": prog, "ops": ops, "codes": {c: ("T", "F") for c in cids},
+                           "masks": list(range(1 << len(cids))), "target_kind": kind, "matrix": [kind, is_async, b1, b2, child]}
+
+
 def nontrivial(case, truth, res, mask, n):
     cl = case["program"].get("classes", [])
     falsy = n - bin(mask).count("1")
@@ -150,6 +201,9 @@ def run(ctx, tier, seed, shard, nshards):
               nontrivial=nontrivial, exclude=exclude)
     if shard == 0:
         structural(ctx)
+        for case in multi_base_matrix():
+            D.run_one(ctx, case, judge, exclude=exclude, nontrivial=nontrivial)
+        ctx.count("multi_base_matrix_cells", 7 * 27)
 
 
 def structural(ctx):
